@@ -7,7 +7,7 @@ from copy import deepcopy
 from typing import TYPE_CHECKING
 
 # Third Party Imports
-from numpy import argwhere, array, ceil, concatenate, delete, dot, hstack, linspace, ones, outer
+from numpy import argmax, argwhere, array, ceil, concatenate, delete, dot, hstack, linspace, ones, outer
 from numpy import round as np_round
 from numpy import sum as np_sum
 from numpy import union1d, vstack, zeros
@@ -646,6 +646,11 @@ class AdaptiveFilter(KalmanFilter):
             prune_index (``ndarray``): indices of models to be pruned
             observations (``list``): :class:`.Observation` objects associated with the filter step
         """
+        if len(prune_index) >= len(self.models):
+            # [NOTE]: Every model is up for pruning: the one that has to stay is the most probable one (index 0 may carry no weight at all).
+            most_probable = int(argmax(self.model_weights))
+            prune_index = [index for index in prune_index if index != most_probable]
+
         for index in reversed(prune_index):
             # Don't prune everything
             if len(self.models) != 1:
